@@ -2805,7 +2805,23 @@ def collapse_aliases(fn):
                     span = {id(n) for s_ in blk[j:i] for n in ast.walk(s_)}
                     if any(n.id == y and id(n) in span for n in names):
                         continue
+                    # reads of x after the alias: only in the statements of
+                    # this block that follow it, before y is bound again
+                    tail_ = set()
+                    for s_ in blk[i + 1:]:
+                        if any(isinstance(n, ast.Name) and n.id == y
+                               and isinstance(n.ctx, (ast.Store, ast.Del))
+                               for n in ast.walk(s_)):
+                            # (a statement that reads x and re-binds y:
+                            # the read comes first in `y = f(x)`)
+                            if isinstance(s_, ast.Assign) and not any(
+                                    isinstance(n, ast.Name) and n.id == y
+                                    for n in ast.walk(s_.value)):
+                                tail_ |= {id(n) for n in ast.walk(s_.value)}
+                            break
+                        tail_ |= {id(n) for n in ast.walk(s_)}
                     if any(n.id == x and id(n) not in span
+                           and id(n) not in tail_
                            and n is not st.value for n in names):
                         continue
                     if any(isinstance(n, ast.Name) and n.id in (x, y)
